@@ -137,6 +137,27 @@ func c13ScriptCheck(c c13Script) (fs []rep.Finding) {
 	if ok && perr != nil {
 		fs = append(fs, rep.F("Parse|rejects-wellformed", perr.Error()))
 	}
+	// the parser configuration the engine uses without a transaction (ErrorOnCheckSig) differs in
+	// one thing only: it refuses scripts in which an opcode (not the data after a top-level
+	// OP_RETURN) needs a transaction
+	if perr == nil {
+		needsTx := false
+		for i := range ps {
+			if ps[i].RequiresTx() && ps[i].Name() != "Unformatted Data" {
+				needsTx = true
+			}
+		}
+		pe := &interpreter.DefaultOpcodeParser{ErrorOnCheckSig: true}
+		pse, eerr := pe.Parse(s)
+		switch {
+		case (eerr != nil) != needsTx:
+			fs = append(fs, rep.F("Parse|ErrorOnCheckSig-disagrees", fmt.Sprintf("strict parser error=%v, a transaction-dependent opcode present=%v", eerr, needsTx)))
+		case eerr == nil:
+			if up, uerr := pe.Unparse(pse); uerr != nil || !bytes.Equal(*up, raw) || len(pse) != len(ps) {
+				fs = append(fs, rep.F("Parse|ErrorOnCheckSig-disagrees", "the strict parser tokenises the script differently"))
+			}
+		}
+	}
 	if !ok && !retTok && perr == nil {
 		fs = append(fs, rep.F("Parse|accepts-truncated-push", "a truncated push was not reported"))
 	}
@@ -251,6 +272,17 @@ func c13PartsCheck(c c13Parts) (fs []rep.Finding) {
 		}
 		if bad || !bytes.Equal(*s1, want) || !bytes.Equal(*s2, want) || !bytes.Equal(*s3, want) || !bytes.Equal(*s4, want) {
 			fs = append(fs, rep.F("AppendPushData*|differs", "a push builder (bytes / hex string / string / strings) differs from the reference encoding"))
+		}
+	}
+	// an item that sits in the script's own spare capacity (a script cut short, the cut-off part
+	// pushed back as data) is still the item that gets pushed
+	for _, pt := range parts[:1] {
+		buf := make([]byte, 0, len(pt)+16)
+		buf = append(append(buf, 0x51, 0x52), pt...)
+		sc := bscript.Script(buf[:2])
+		wantSc := bytesJoin([]byte{0x51, 0x52}, refPrefix(len(pt)), pt)
+		if err := sc.AppendPushData(buf[2 : 2+len(pt)]); err != nil || !bytes.Equal(sc, wantSc) {
+			fs = append(fs, rep.F("AppendPushData|item-in-own-capacity", "pushing an item that lies in the script's spare capacity pushes other bytes"))
 		}
 	}
 	// and the interpreter's parser agrees
